@@ -8,6 +8,7 @@ import traceback
 from .. import corpus
 from ..build import Build, BuildError
 from ..core import Result
+from ..values import attr_names
 from ..values import hints_of
 from ..values import BP, Gen, tree_to_json
 
@@ -175,6 +176,7 @@ def run_shard(shard) -> Result:
                 continue
             _compare_structure(s0, s1, cfg_sig, name, cfg, res, w, {m.full_name: m for m in b.user_messages()})
         _compare_behaviour(builds, shard, name, res, w0)
+        _compare_alias_members(builds, name, res, w0)
         if len(res.samples) < 1:
             res.sample({"program": name, "variants_built": sorted(builds), "messages": len(s0["messages"]), "services": len(s0["services"])})
     except Exception as e:
@@ -417,6 +419,38 @@ def _compare_behaviour(builds, shard, name, res: Result, w0):
                         res.violation("behaviour", [cfg_sig, "json-differs", "-", "-"], f"{name} [{cfg}]: {mi.full_name}: {want_json[:150]} vs {gj[:150]}", w)
                 except Exception as e:
                     res.violation("behaviour", [cfg_sig, "to_json-raised:" + type(e).__name__, "-", "-"], f"{name} [{cfg}]: {mi.full_name}: {e!r}", w)
+
+
+def _compare_alias_members(builds, name, res: Result, w0):
+    """enum fields set to a member looked up by an ALIAS name: every configuration must print / encode the same"""
+    base_cfg = CONFIGS[0]
+    b0 = builds[base_cfg]
+    for mi in b0.user_messages():
+        for fi in mi.fields:
+            if fi.kind != "enum" or fi.label not in ("singular", "optional", "oneof") or fi.type_name.startswith(".google.protobuf."):
+                continue
+            ei = b0.enums.get(fi.type_name)
+            if ei is None or len(set(ei.numbers)) == len(ei.numbers):
+                continue
+            outs = {}
+            for cfg, b in builds.items():
+                try:
+                    E = b.bp_enum(fi.type_name)
+                    cls = b.bp_class(mi.full_name)
+                    attr = attr_names(cls)[fi.number]
+                    rows = []
+                    for nm in sorted(E.__members__):
+                        m = cls(**{attr: E[nm]})
+                        rows.append((nm, bytes(m).hex(), m.to_json()))
+                    outs[cfg] = rows
+                except Exception as e:
+                    outs[cfg] = "raised:" + type(e).__name__ + ":" + str(e)[:100]
+            res.counters["alias_member_comparisons"] += len(outs)
+            for cfg, rows in outs.items():
+                if rows != outs[base_cfg]:
+                    diff = next((a, b_) for a, b_ in zip(rows, outs[base_cfg]) if a != b_) if isinstance(rows, list) and isinstance(outs[base_cfg], list) else (rows, outs[base_cfg])
+                    res.violation("behaviour", [cfg.replace("typing.", ""), "alias-member-differs", "-", "-"],
+                                  f"{name} [{cfg}]: {mi.full_name}.{fi.name} set to members by (alias) name: {str(diff)[:300]}", dict(w0, config=cfg, msg=mi.full_name))
 
 
 def _safe_json(m):
